@@ -6,7 +6,7 @@
    bytes in the right order and is the model of modfile.Format. *)
 From Verif.Base Require Import Bytes Utf8.
 From Verif.Gen Require Import GenUnicode.
-From Verif.Modfile Require Import Syntax.
+From Verif.Modfile Require Import Syntax Lex.
 
 (* ---------------------------------------------------------------- strings.TrimSpace *)
 
@@ -47,7 +47,7 @@ Fixpoint trim_right_rev (f : nat) (rs : str) : str :=
 (* strings.TrimSpace *)
 Definition trim_space (s : str) : str :=
   let l := trim_left (length s) s in
-  rev (trim_right_rev (length l) (rev l)).
+  frev (trim_right_rev (length l) (frev l)).
 
 (* ---------------------------------------------------------------- printer *)
 
@@ -213,4 +213,4 @@ Fixpoint strip_trailing (o : str) : str :=
   end.
 
 (* modfile.Format *)
-Definition format (f : file_syntax) : str := rev (strip_trailing (ps_out (print_file f))).
+Definition format (f : file_syntax) : str := frev (strip_trailing (ps_out (print_file f))).
